@@ -211,6 +211,20 @@ class Canon:
             # s.split(sep, n)[0] with n >= 1 is s.split(sep)[0]
             if idx == ('num', 0) and base[0] == 'call' and base[1][0] == 'attr' and base[1][2] == 'split' and len(base[2]) == 2 and not base[3] and base[2][1][0] == 'num' and isinstance(base[2][1][1], int) and base[2][1][1] >= 1:
                 base = ('call', ('attr', base[1][1], 'split'), (base[2][0],), ())
+            # a table built as [f(i) for i in range(N)] (possibly wrapped in np.array) read at position k is f(k)
+            tab = base
+            if tab[0] == 'call' and tab[1] in (('lib', 'numpy.array'), ('lib', 'numpy.asarray'), ('name', 'list'), ('name', 'tuple')) and len(tab[2]) == 1:
+                tab = tab[2][0]
+            if tab[0] == 'listcomp' and len(tab[2]) == 1 and not tab[2][0][1] and tab[2][0][0][0] == 'call' and tab[2][0][0][1] == ('name', 'range') and len(tab[2][0][0][2]) == 1 and idx[0] not in ('slice', 'tuple'):
+                cv_ = next((x for x in walk_term(tab[1]) if isinstance(x, tuple) and len(x) == 3 and x[0] == 'cvar'), None)
+                if cv_ is not None:
+                    def _rep_cv(t_):
+                        if t_ == cv_:
+                            return idx
+                        if isinstance(t_, tuple):
+                            return tuple(_rep_cv(y) for y in t_)
+                        return t_
+                    return _rep_cv(tab[1])
             # (a, b, c)[1] is b
             if base[0] in ('tuple', 'list') and idx[0] == 'num' and isinstance(idx[1], int) and 0 <= idx[1] < len(base) - 1:
                 return base[1 + idx[1]]
